@@ -20,6 +20,10 @@ use crate::util::{
     compress_async, decompress_async, read_directories_async, write_directories_async,
 };
 
+/// Highest zoom level whose tile ids fit into 64 bits. There can be no tile above it, and
+/// computing a tile id for a higher zoom would overflow.
+const MAX_ZOOM: u8 = 31;
+
 #[derive(Debug)]
 /// A structure representing a `PMTiles` archive.
 pub struct PMTiles<R> {
@@ -187,6 +191,10 @@ impl<R: Read + Seek> PMTiles<R> {
     /// # Errors
     /// See [`get_tile_by_id`](Self::get_tile_by_id) for details on possible errors.
     pub fn get_tile(&mut self, x: u64, y: u64, z: u8) -> Result<Option<Vec<u8>>> {
+        if z > MAX_ZOOM {
+            return Ok(None);
+        }
+
         self.get_tile_by_id(tile_id(z, x, y))
     }
 }
@@ -220,6 +228,10 @@ impl<R: AsyncRead + AsyncReadExt + Send + Unpin + AsyncSeekExt> PMTiles<R> {
     /// # Errors
     /// See [`get_tile_by_id_async`](Self::get_tile_by_id_async) for details on possible errors.
     pub async fn get_tile_async(&mut self, x: u64, y: u64, z: u8) -> Result<Option<Vec<u8>>> {
+        if z > MAX_ZOOM {
+            return Ok(None);
+        }
+
         self.get_tile_by_id_async(tile_id(z, x, y)).await
     }
 }
